@@ -9,6 +9,7 @@ import (
 	"path"
 	"sort"
 	"strings"
+	"sync"
 	"sync/atomic"
 	"testing"
 	"time"
@@ -62,9 +63,9 @@ func startDecoy() {
 
 type Case struct {
 	Engine   string   `json:"engine"`
-	Prefix   string   `json:"prefix"` // /olla/proxy/ | /olla/<provider prefix>/
+	Prefix   string   `json:"prefix"`         // /olla/proxy/ | /olla/<provider prefix>/
 	Type     string   `json:"type,omitempty"` // endpoint type (a profile owning the prefix); "" = openai-compatible
-	Base     string   `json:"base"`   // endpoint base path: "", "/", "/base", "/a/b/"
+	Base     string   `json:"base"`           // endpoint base path: "", "/", "/base", "/a/b/"
 	Preserve bool     `json:"preserve"`
 	Segs     []string `json:"segs"` // path segments after the prefix, joined with "/"
 	Query    string   `json:"query"`
@@ -106,6 +107,14 @@ func genCase(t *rapid.T) Case {
 		c.Prefix, c.Type = "/olla/"+pre+"/", provOwners[pre][0]
 	}
 	n := rapid.IntRange(1, 6).Draw(t, "nseg")
+	// one case in six with a nested base path: the remaining path starts like the base path itself
+	// (/a/b/x under base /a/b) or like a sibling of it (/a/b2/x, /a/b-internal/x)
+	if bs := strings.Split(strings.Trim(c.Base, "/"), "/"); strings.Trim(c.Base, "/") != "" && rapid.IntRange(0, 5).Draw(t, "lookalike") == 0 {
+		c.Segs = append(c.Segs, bs...)
+		c.Segs[len(c.Segs)-1] += rapid.SampledFrom([]string{"", "", "0", "-internal", "beta"}).Draw(t, "suffix")
+		n = rapid.IntRange(1, 3).Draw(t, "nseg2")
+		c.Absolute = false
+	}
 	for i := 0; i < n; i++ {
 		s, _ := genSeg(t, decoy)
 		c.Segs = append(c.Segs, s)
@@ -279,6 +288,11 @@ func trunc(b []byte, n int) []byte {
 // ---------------------------------------------------------------------------
 // configuration resolution of health-check / model-listing paths
 
+var (
+	cfgRepoMu sync.Mutex
+	cfgRepo   *discovery.StaticEndpointRepository
+)
+
 type CfgCase struct {
 	URL    string `json:"url"`
 	Health string `json:"health"`
@@ -352,6 +366,43 @@ func runCfg(c CfgCase) []ev.Violation {
 	}
 	check("health", c.Health, all[0].HealthCheckURLString)
 	check("model", c.Model, all[0].ModelURLString)
+	if len(vs) > 0 {
+		return vs
+	}
+	// how an endpoint's paths are resolved depends on that endpoint alone: a second endpoint of the
+	// same type that configures nothing resolves to the same URLs whether it is loaded by itself or
+	// after this one (in either order)
+	plain := config.EndpointConfig{Name: "plain", URL: "http://127.0.0.1:7/own/base", Type: "openai-compatible", Priority: &p, CheckInterval: 5 * time.Second, CheckTimeout: 2 * time.Second}
+	first := config.EndpointConfig{Name: "e", URL: c.URL, Type: "openai-compatible", Priority: &p, HealthCheckURL: c.Health, ModelURL: c.Model, CheckInterval: 5 * time.Second, CheckTimeout: 2 * time.Second}
+	resolve := func(cfgs ...config.EndpointConfig) (health, model string, ok bool) {
+		cfgRepoMu.Lock()
+		defer cfgRepoMu.Unlock()
+		if cfgRepo == nil {
+			cfgRepo = discovery.NewStaticEndpointRepository() // (reads the shipped profiles once)
+		}
+		rp := cfgRepo
+		if err := rp.LoadFromConfig(context.Background(), cfgs); err != nil {
+			return "", "", false
+		}
+		eps, _ := rp.GetAll(context.Background())
+		for _, e := range eps {
+			if e.Name == "plain" {
+				return e.HealthCheckURLString, e.ModelURLString, true
+			}
+		}
+		return "", "", false
+	}
+	h0, m0, ok0 := resolve(plain)
+	onlyHealth, onlyModel := first, first
+	onlyHealth.ModelURL, onlyModel.HealthCheckURL = "", ""
+	for _, order := range [][]config.EndpointConfig{{first, plain}, {plain, first}, {onlyHealth, plain}, {onlyModel, plain}, {plain, onlyHealth}} {
+		h1, m1, ok1 := resolve(order...)
+		if ok0 && ok1 && (h1 != h0 || m1 != m0) {
+			vs = append(vs, ev.Violation{Sig: "config/sibling-changes-resolution", Detail: fmt.Sprintf("an endpoint that configures no paths resolves to health %q / models %q on its own, but to %q / %q when loaded together with %+v", h0, m0, h1, m1, c)})
+			break
+		}
+	}
+	rec.Class("config/sibling-differential")
 	return vs
 }
 
